@@ -68,6 +68,18 @@ func norm(v ssa.Value) ssa.Value {
 	return v
 }
 
+// asFunc: the function a function-typed operand denotes when it is a closure literal (with or
+// without captured variables) or a named function.
+func asFunc(v ssa.Value) *ssa.Function {
+	switch x := v.(type) {
+	case *ssa.MakeClosure:
+		return x.Fn.(*ssa.Function)
+	case *ssa.Function:
+		return x
+	}
+	return nil
+}
+
 // freeVarValue resolves a (load of a) captured variable to the value bound in the creating
 // function when that is unambiguous.
 func freeVarValue(v ssa.Value) ssa.Value {
